@@ -117,6 +117,25 @@ pub fn hand_systems(w: u32) -> Vec<SysSpec> {
             constraints: vec![],
         });
     }
+    // bypass reads: a read at a CONSTANT address of a store chain whose writes have symbolic addresses (and
+    // data), reachable through nothing else; and a read at a symbolic address of a chain with constant ones
+    {
+        let mem = || T::sym("mem1_2", Ty::Arr(1, 2));
+        let st = |a: T, i: T, d: T| T::Store(Box::new(a), Box::new(i), Box::new(d));
+        let rd = |a: T, i: T| T::Read(Box::new(a), Box::new(i));
+        let chain = || st(st(mem(), s("wa", 1), s("wd", 2)), l(1, 0), s("xd", 2));
+        v.push(SysSpec {
+            name: "bypass".into(),
+            inputs: vec![("wa".into(), Ty::Bv(1)), ("wd".into(), Ty::Bv(2)), ("xd".into(), Ty::Bv(2)), ("ra".into(), Ty::Bv(1))],
+            states: vec![
+                StateSpec { name: "mem1_2".into(), ty: Ty::Arr(1, 2), init: Some(T::AConst(1, Box::new(l(2, 0)))), next: Some(mem()) },
+                StateSpec { name: "q".into(), ty: Ty::Bv(2), init: Some(l(2, 0)), next: Some(rd(st(mem(), s("wa", 1), s("wd", 2)), l(1, 1))) },
+            ],
+            outputs: vec![("o1".into(), rd(chain(), l(1, 1))), ("o2".into(), rd(st(st(mem(), l(1, 0), s("xd", 2)), l(1, 1), s("wd", 2)), s("ra", 1)))],
+            bads: vec![T::bin(Bin::Eq, rd(st(mem(), s("wa", 1), s("wd", 2)), l(1, 0)), l(2, 3))],
+            constraints: vec![],
+        });
+    }
     v
 }
 
